@@ -240,6 +240,68 @@ CHECKS["C18"] = {
 }
 
 
+CHECKS["C10"] = {
+    "level": "model_checking",
+    "technique": "explicit-state BFS with small limits plus exhaustive cut enumeration around the limit and deterministic steady-state heap accounting, limit monitor after every call, on the real code",
+    "level_text": "M-lim (buffered line bytes <= field_limit_hard, folded header <= cap + one line, repetitions <= 64, transactions held <= max_tx + 1) is evaluated after every call of: the "
+                  "statemc search with field_limit_hard=24 / max_tx=2 and over-long half tokens; every field of length limit-3..limit+4 for limits {8,24,64} in six line kinds (request line, "
+                  "request header, request chunk-size line, status line, response header, response chunk-size line) under EVERY single and double cut inside the line and byte-by-byte "
+                  "delivery, where a run that does not end in ERROR must report the field whole (no silent truncation); 130 KiB folded-header pumps, 70/200 repetitions of one name, "
+                  "max_tx in {1,2,5} with max_tx+4 pipelined requests / unmatched responses. Steady state: every <=1-deviation grammar exchange repeated 1000 (quick) / 10000 (thorough) "
+                  "times with auto-destroy, logging off and htp_connp_tx_freed() after each completion; live heap bytes at every TRANSACTION_COMPLETE must be EXACTLY equal from the 4th on.",
+    "level_note": "The heap measure counts bytes requested through malloc/calloc/realloc/strdup inside libhtp (zlib's own allocations are outside). Exact equality is deliberate: the allocator "
+                  "wrapper is deterministic and a tolerance would hide slow leaks.",
+    "design_ref": "DESIGN.md §6 C10",
+    "rule": _STATEMC_RULE + "; cutmc limits: limit x line kind x field length x all cut pairs; steady-state repetitions",
+    "bounds": {"quick": "statemc micro depth 4 (cfg 2) / 3 (cfg 5); limits {8,24,64} x 6 kinds x 8 lengths x all cut pairs; steady N=1000 x 52 exchanges", "thorough": "statemc one level deeper; steady N=10000"},
+    "mc_explanation": "states/transitions of the implementation; stateless workloads add distinct callback traces / data calls",
+    "assumptions": ["token alphabets of mc/statemc.c", "slot grammar of mc/gen.c for the steady-state shapes"],
+    "jobs": lambda tier: [J("statemc", "plain", ["--alphabet", "micro", "--depth", "4" if tier == "quick" else "5", "--cfg", "2"]),
+                          J("statemc", "plain", ["--alphabet", "micro", "--depth", "3" if tier == "quick" else "4", "--cfg", "5"]),
+                          J("statemc", "plain", ["--alphabet", "macro", "--depth", "5" if tier == "quick" else "6", "--cfg", "2"]),
+                          J("cutmc", "plain", ["--mode", "limits"]), J("cutmc", "asan", ["--mode", "limits", "--steady-n", "200"])],
+}
+
+CHECKS["C01"] = {
+    "level": "model_checking",
+    "technique": "explicit-state BFS over API-call histories (incl. gaps, close, destroy, callback deviations) and exhaustive re-cutting of the capture corpus on the real code under ASan+UBSan with leak accounting",
+    "level_text": "ASan+UBSan (all default checks fatal) + a live-allocation table checked after every teardown + a CPU watchdog judge: (a) the statemc search over the micro and macro token "
+                  "alphabets incl. malformed and half tokens, stream gaps, close / request-close at every point, htp_tx_destroy of any slot (must refuse incomplete ones), tx_freed, and one "
+                  "callback deviation per history (DECLINED / STOP / ERROR / register tx-level hooks / destroy another completed transaction), under the documented hand-over and under raw "
+                  "call order, for several configurations (personalities, auto-destroy, small limits, parsers on/off, decompression on/off); every reached state is torn down; (b) the "
+                  "repository's ~100 captures plus 19 generated exchanges re-cut with every single extra cut, 1/2/3-byte delivery under three configurations; (c) the C03/C06/C14-style "
+                  "segmentation workloads and the C18 fault runs execute under the same sanitizers in their own checks. Every chunk is handed to the library in an exact-size heap block "
+                  "that is poisoned and freed when the call returns.",
+    "level_note": "Depth-bounded: byte values outside the token alphabets are covered only by the byte-level engines (C12-C15, C17 run under ASan too); chunk sizes > 64 KiB and overflows that "
+                  "need gigabyte inputs are not explored. TRANSACTION_COMPLETE destroying its own transaction is explored as a separately labelled scenario.",
+    "design_ref": "DESIGN.md §6 C01",
+    "rule": _STATEMC_RULE + "; cutmc corpus: capture x cfg x {every single extra cut, 1/2/3-byte}",
+    "bounds": {"quick": "ASan: micro depth 3 with deviations to depth 3, macro depth 4 (auto-destroy) with deviations to depth 2, raw micro 3; plain leak pass micro 4 / macro 5; corpus single cuts",
+               "thorough": "one level deeper everywhere, 6 configurations, corpus cut pairs within 24 bytes"},
+    "mc_explanation": "states/transitions of the implementation; corpus re-cuts add distinct callback traces / data calls",
+    "assumptions": ["token alphabets of mc/statemc.c", "sanitizer coverage = clang 14 ASan+UBSan default checks"],
+    "jobs": lambda tier: _c01_jobs(tier),
+}
+
+
+def _c01_jobs(tier):
+    q = tier == "quick"
+    d = lambda a, b: a if q else b
+    jobs = [
+        J("statemc", "asan", ["--alphabet", "micro", "--depth", d("3", "4"), "--cfg", "0", "--devdepth", d("3", "3")]),
+        J("statemc", "asan", ["--alphabet", "macro", "--depth", d("4", "5"), "--cfg", "1", "--devdepth", d("2", "3")]),
+        J("statemc", "asan", ["--alphabet", "micro", "--depth", d("3", "4"), "--cfg", "1", "--raw", "1"]),
+        J("statemc", "asan", ["--alphabet", "micro", "--depth", d("3", "4"), "--cfg", "2", "--devdepth", d("1", "2")]),
+        J("statemc", "plain", ["--alphabet", "micro", "--depth", d("4", "5"), "--cfg", "0"]),
+        J("statemc", "plain", ["--alphabet", "macro", "--depth", d("5", "6"), "--cfg", "1"]),
+        J("statemc", "plain", ["--alphabet", "macro", "--depth", d("4", "5"), "--cfg", "0", "--raw", "1", "--devdepth", d("2", "3")]),
+        J("cutmc", "asan", ["--mode", "corpus"]),
+    ]
+    if not q:
+        jobs += [J("statemc", "asan", ["--alphabet", "micro", "--depth", "3", "--cfg", str(c), "--devdepth", "2"]) for c in (3, 4, 5, 9, 13)]
+    return jobs
+
+
 def manifest():
     import json, os
     root = os.path.dirname(os.path.dirname(os.path.abspath(__file__)))
@@ -275,7 +337,7 @@ ENGINES = [
     {"name": "enum_c15", "path": "mc/enum_c15.c", "serves_properties": ["C15"], "kind_free_text": "E3: exhaustive strings x all partitions x decoder lattice through the urlencoded parser vs mc/ref.c"},
     {"name": "enum_c17", "path": "mc/enum_c17.c", "serves_properties": ["C17"], "kind_free_text": "E4+E3: BFS over container op sequences and exhaustive primitive arguments vs reference models"},
     {"name": "faultmc", "path": "mc/faultmc.c", "serves_properties": ["C18"], "kind_free_text": "E5: exhaustive k-th allocation failure enumeration under ASan+UBSan"},
-    {"name": "cutmc", "path": "mc/cutmc.c", "serves_properties": ["C02", "C03", "C04", "C06", "C16"], "kind_free_text": "E1: stateless deviation-bounded explorer of segmentation / generated grammar on the real code"},
+    {"name": "cutmc", "path": "mc/cutmc.c", "serves_properties": ["C01", "C02", "C03", "C04", "C06", "C10", "C16"], "kind_free_text": "E1: stateless deviation-bounded explorer of segmentation / generated grammar on the real code"},
 ]
 
 if __name__ == "__main__":
